@@ -64,4 +64,23 @@ def getName (m : Mesh) (name : String) : M Mesh :=
   | none => .error .key
   | some p => Mesh.mkCell? p.2 m.cell
 
+/-! ## the subregion invariant (exact-arithmetic reading of the setter's three tests) -/
+
+/-- The geometry of a box `s` fits the mesh `m` exactly: one coordinate per direction, and on
+every axis it sits a whole number `z ≥ 0` of cells into the region and is a whole number
+`w ≥ 1` of cells long, ending inside (`z + w ≤ n`).  This is the tolerance-0 reading of the
+three tests of `subOk` (inside, whole cells, on the lattice). -/
+def FitsE (m : Mesh) (s : Region) : Prop :=
+  s.pmin.length = m.ndim ∧ s.pmax.length = m.ndim ∧
+  ∀ a, a < m.ndim → ∃ z w : Int, 0 ≤ z ∧ 0 < w ∧ z + w ≤ (m.nAt a : Int) ∧
+    s.lo a - m.region.lo a = (z : Rat) * m.cellAt a ∧ s.hi a - s.lo a = (w : Rat) * m.cellAt a
+
+/-- A held subregion fits exactly: geometry as `FitsE`, and it carries the mesh's dimension
+names, units and tolerance factor (the setter re-creates it with them). -/
+def SubOkE (m : Mesh) (s : Region) : Prop :=
+  s.dims = m.region.dims ∧ s.units = m.region.units ∧ s.tol = m.region.tol ∧ FitsE m s
+
+/-- every subregion held by the mesh fits it exactly -/
+def SubInv (m : Mesh) : Prop := ∀ p ∈ m.subs, SubOkE m p.2
+
 end DFV.C14
